@@ -211,13 +211,23 @@ theorem yamlMarshalStream_null_cons (c : Codec) (v : Val) (hv : v ≠ .null) (vs
 
 /-- if every document has a separator-free encoding that decodes back to it, then writing the
     encodings joined by a separator and reading the parts back gives the documents -/
-theorem stream_rt (isSep : String → Bool) (sep : String) (hs : isSep sep = true)
-    (e : Val → R Lines) (d : Lines → R Val) (vs : List Val) (hne : vs ≠ [])
-    (h : ∀ v ∈ vs, ∃ ls, e v = .ok ls ∧ (∀ l ∈ ls, isSep l = false) ∧ d ls = .ok v) :
-    ∃ bs, vs.mapM e = .ok bs ∧ (splitAt isSep (joinWith sep bs)).mapM d = .ok vs := by
+theorem forall2_map_right {α β γ : Type} (P : α → γ → Prop) (f : β → γ) :
+    ∀ (as : List α) (bs : List β), List.Forall₂ (fun a b => P a (f b)) as bs →
+      List.Forall₂ P as (bs.map f)
+  | [], _, h => by cases h; exact .nil
+  | a :: as, _, h => by
+    cases h with
+    | cons h1 h2 => exact .cons h1 (forall2_map_right P f as _ h2)
+
+/-- generic form: the part reader `d` may return any type `β`; `f v` is what it makes of the
+    encoding of `v` -/
+theorem stream_rt_gen {β : Type} (isSep : String → Bool) (sep : String) (hs : isSep sep = true)
+    (e : Val → R Lines) (d : Lines → R β) (f : Val → β) (vs : List Val) (hne : vs ≠ [])
+    (h : ∀ v ∈ vs, ∃ ls, e v = .ok ls ∧ (∀ l ∈ ls, isSep l = false) ∧ d ls = .ok (f v)) :
+    ∃ bs, vs.mapM e = .ok bs ∧ (splitAt isSep (joinWith sep bs)).mapM d = .ok (vs.map f) := by
   have key : ∀ (ws : List Val), (∀ v ∈ ws, ∃ ls, e v = .ok ls ∧ (∀ l ∈ ls, isSep l = false) ∧
-      d ls = .ok v) → ∃ bs : List Lines, List.Forall₂ (fun v b => e v = .ok b) ws bs ∧
-        List.Forall₂ (fun b v => d b = .ok v) bs ws ∧ (∀ x ∈ bs, ∀ l ∈ x, isSep l = false) := by
+      d ls = .ok (f v)) → ∃ bs : List Lines, List.Forall₂ (fun v b => e v = .ok b) ws bs ∧
+        List.Forall₂ (fun b v => d b = .ok (f v)) bs ws ∧ (∀ x ∈ bs, ∀ l ∈ x, isSep l = false) := by
     intro ws
     induction ws with
     | nil => intro _; exact ⟨[], .nil, .nil, fun x hx => by cases hx⟩
@@ -236,17 +246,33 @@ theorem stream_rt (isSep : String → Bool) (sep : String) (hs : isSep sep = tru
   | nil => cases f1; exact absurd rfl hne
   | cons b bs =>
     rw [splitAt_joinWith isSep sep hs b bs f3]
-    exact s_mapM_ok d _ _ f2
+    exact s_mapM_ok d _ _ (forall2_map_right (fun b y => d b = .ok y) f _ _ f2)
+
+/-- if every document has a separator-free encoding that decodes back to it, then writing the
+    encodings joined by a separator and reading the parts back gives the documents -/
+theorem stream_rt (isSep : String → Bool) (sep : String) (hs : isSep sep = true)
+    (e : Val → R Lines) (d : Lines → R Val) (vs : List Val) (hne : vs ≠ [])
+    (h : ∀ v ∈ vs, ∃ ls, e v = .ok ls ∧ (∀ l ∈ ls, isSep l = false) ∧ d ls = .ok v) :
+    ∃ bs, vs.mapM e = .ok bs ∧ (splitAt isSep (joinWith sep bs)).mapM d = .ok vs := by
+  have := stream_rt_gen isSep sep hs e d id vs hne h
+  simpa using this
 
 /-- a line that YAML's reader treats as blank -/
 def blankLine (l : String) : Bool := l.trimAscii.toString == ""
 
 /-- what `yamlUnmarshalStream` does with one part -/
-def yamlPart (c : Codec) (part : Lines) : R Val :=
-  if part.all blankLine then pure Val.null else c.dec part
+theorem yamlPartDocs_eq (c : Codec) (part : Lines) :
+    yamlPartDocs c part =
+      (if part.all blankLine then pure [Val.null]
+       else (c.decMany part >>= fun ds => pure (if ds.isEmpty then [Val.null] else ds))) := rfl
 
 theorem yamlUnmarshalStream_eq (c : Codec) (text : Lines) :
-    yamlUnmarshalStream c text = (splitAt sepYaml text).mapM (yamlPart c) := rfl
+    yamlUnmarshalStream c text =
+      (do let parts ← (splitAt sepYaml text).mapM (yamlPartDocs c); pure parts.flatten) := rfl
+
+theorem flatten_map_singleton {α : Type} : ∀ (xs : List α), (xs.map ([·])).flatten = xs
+  | [] => rfl
+  | x :: xs => by simp [flatten_map_singleton xs]
 
 /-- the hypotheses on a third-party single-document codec under which the stream framing
     round-trips: on its domain, encoding succeeds, produces no separator line and at least one
@@ -254,6 +280,9 @@ theorem yamlUnmarshalStream_eq (c : Codec) (text : Lines) :
 structure CodecOK (c : Codec) (isSep : String → Bool) (dom : Val → Prop) : Prop where
   rt : ∀ v, dom v → ∃ ls, c.enc v = .ok ls ∧ (∀ l ∈ ls, isSep l = false) ∧
     ls.all blankLine = false ∧ c.dec ls = .ok v
+  /-- the encoding of one value holds exactly one document for the decoder loop (used by the YAML
+      reader only, which decodes every document of a part) -/
+  one : ∀ v ls, dom v → c.enc v = .ok ls → c.decMany ls = .ok [v]
 
 theorem sepYaml_sep : sepYaml "---" = true := by decide
 theorem sepToml_sep : sepToml "---" = true := by decide
@@ -262,18 +291,20 @@ theorem yaml_rt_general (c : Codec) (dom : Val → Prop) (ok : CodecOK c sepYaml
     (v : Val) (vs : List Val) (hv : v ≠ .null) (hd : ∀ w ∈ v :: vs, w ≠ .null → dom w) :
     ∃ text, yamlMarshalStream c (v :: vs) = .ok text ∧
       yamlUnmarshalStream c text = .ok (v :: vs) := by
-  obtain ⟨bs, h1, h2⟩ := stream_rt sepYaml "---" sepYaml_sep (streamBody c) (yamlPart c)
-    (v :: vs) (by simp) (by
+  obtain ⟨bs, h1, h2⟩ := stream_rt_gen sepYaml "---" sepYaml_sep (streamBody c) (yamlPartDocs c)
+    (fun w => [w]) (v :: vs) (by simp) (by
       intro w hw
       by_cases hn : w = .null
       · subst hn
         exact ⟨[], rfl, (fun l hl => nomatch hl), rfl⟩
       · obtain ⟨ls, e1, e2, e3, e4⟩ := ok.rt w (hd w hw hn)
         refine ⟨ls, by rw [streamBody_nonnull c hn, e1], e2, ?_⟩
-        simp only [yamlPart, e3, Bool.false_eq_true, if_false, e4])
+        rw [yamlPartDocs_eq]
+        simp only [e3, Bool.false_eq_true, if_false, ok.one w ls (hd w hw hn) e1, s_bind_ok]
+        rfl)
   refine ⟨joinWith "---" bs, ?_, ?_⟩
   · rw [yamlMarshalStream_eq c v hv vs, h1]; rfl
-  · rw [yamlUnmarshalStream_eq, h2]
+  · rw [yamlUnmarshalStream_eq, h2, s_bind_ok, s_pure, flatten_map_singleton]
 
 theorem toml_rt_general (c : Codec) (dom : Val → Prop) (ok : CodecOK c sepToml dom)
     (v : Val) (vs : List Val) (hd : ∀ w ∈ v :: vs, w ≠ .null → dom w)
@@ -523,6 +554,14 @@ theorem toyCodec_ok_yaml : CodecOK toyCodec sepYaml toyDom where
     · intro l hl
       rw [List.mem_singleton.1 hl]; exact (int_toString_not_sep i).1
     · simp only [List.all_cons, List.all_nil, Bool.and_true]; exact int_toString_not_blank i
+  one := by
+    rintro v ls ⟨i, rfl⟩ he
+    have : ls = [toString i] := by
+      have h : toyCodec.enc (.int i) = .ok [toString i] := rfl
+      rw [h] at he; injection he with he; exact he.symm
+    subst this
+    show (do let v ← toyCodec.dec [toString i]; pure [v] : R (List Val)) = .ok [.int i]
+    rw [toyCodec_dec]; rfl
 
 theorem toyCodec_ok_toml : CodecOK toyCodec sepToml toyDom where
   rt := by
@@ -531,6 +570,14 @@ theorem toyCodec_ok_toml : CodecOK toyCodec sepToml toyDom where
     · intro l hl
       rw [List.mem_singleton.1 hl]; exact (int_toString_not_sep i).2
     · simp only [List.all_cons, List.all_nil, Bool.and_true]; exact int_toString_not_blank i
+  one := by
+    rintro v ls ⟨i, rfl⟩ he
+    have : ls = [toString i] := by
+      have h : toyCodec.enc (.int i) = .ok [toString i] := rfl
+      rw [h] at he; injection he with he; exact he.symm
+    subst this
+    show (do let v ← toyCodec.dec [toString i]; pure [v] : R (List Val)) = .ok [.int i]
+    rw [toyCodec_dec]; rfl
 
 theorem toyCodec_ok_json : ∀ v, toyDom v →
     ∃ l, toyCodec.enc v = .ok [l] ∧ toyCodec.dec [l] = .ok v := by
